@@ -3880,7 +3880,7 @@ fn write_residuals<W: BitWrite>(
                     .rev()
                     .map(|partition| Partition::new(partition, &mut estimated_bits))
                     .collect::<Option<ArrayVec<_, MAX_PARTITIONS>>>()
-                    .filter(|p| !p.is_empty() && p.len().is_power_of_two())?;
+                    .filter(|p| p.len() == partition_count)?;
 
                 Some((partitions, estimated_bits))
             })
